@@ -15,8 +15,8 @@ PLAN = dict(
                 "own reader would tolerate or mirror is still visible; the byte accounting mechanism is additionally model-checked by random operation sequences."),
     level_note=NOTE_BASE,
     runs=[
-        dict(name="wf", run="^(TestPropWellFormed|TestCorpus)$", checks=(1500, 40000), shards=(2, 12), timeout=(300, 1800)),
-        dict(name="cw", run="^TestPropCountingWriter$", checks=(3000, 60000), shards=(1, 4), timeout=(300, 1800)),
+        dict(name="wf", run="^(TestPropWellFormed|TestCorpus)$", checks=(1500, 200000), shards=(2, 16), timeout=(300, 3600)),
+        dict(name="cw", run="^TestPropCountingWriter$", checks=(3000, 300000), shards=(1, 4), timeout=(300, 3600)),
     ],
     require=[("wellformed", "sink:plain"), ("wellformed", "sink:readerfrom"), ("wellformed", "extra-sections-2"), ("countingwriter", "sink-failed"),
              ("countingwriter", "op:readfrom"), ("countingwriter", "op:copy-plain")],
